@@ -13,7 +13,10 @@ it when the branch is alone. Two further dimensions: the flow's values are all d
 (always made of their own objects), and the container is used as built or is a DEEP COPY, taken before
 any value, of a template that is driven next to it over an equal flow (what SplitIntoBins / MapBins do
 with their sequences): template and copy must each behave like a container built for the purpose and
-share nothing.
+share nothing. Two more: a branch may be a bare nested Zip (the container gets the Zip object itself;
+each of its sequences has its own mutators, StoreFilled and a Tap), and the contexts of the flow may be
+lena.context.Context objects (the documented dict subclass the element Context() puts into the flow)
+instead of plain dicts.
 
 Part B (accumulators, explicit-state exploration of event histories): every history over
 {fill a fresh value, compute/request, poison everything yielded so far} up to a bound is executed on
@@ -22,7 +25,8 @@ FillComputeSeq / FillRequest / Split / Zip. After the last event of every histor
 reachable from every yielded context are disjoint from those of every filled value's context and from
 those of every other yielded context (of an earlier compute or of the same one: accumulators that yield
 several values at one compute are in the alphabet); a poison leaves the filled values as they were; a compute gives
-what an un-poisoned twin gives.
+what an un-poisoned twin gives. The contexts of the filled values are plain dicts or lena.context.Context
+objects (one shard each).
 """
 import itertools
 
@@ -35,13 +39,15 @@ ID = "C04"
 LEVEL = "model_checking"
 DESIGN_REF = "DESIGN.md section 5, C04"
 RULE = ("Part A: one evaluation = one (container, drive mode, ordered branch list - flow-reading branches "
-        "and, under Split.run, Source branches at every position -, bufsize, flow length, "
-        "consumer, flow of different / of equal values, container as built / deep copy next to its "
+        "and, under Split.run, Source branches at every position; also branches that are a bare nested "
+        "Zip -, bufsize, flow length, "
+        "consumer, flow of different / of equal values / with lena.context.Context contexts, container as built / deep copy next to its "
         "template) executed on a fresh Split/Zip plus the cached single-branch reference runs; it is "
         "non-trivial when there are >= 2 branches, the flow is not empty and at least one branch, run "
         "alone, really changed its input values in place (measured by comparing the flow before and "
         "after). Part B: one evaluation = one event history (last event judged) on a fresh accumulator "
-        "and its un-poisoned twin; histories contain >= 1 compute (any number of fills, also none), 'poison' occurs only "
+        "and its un-poisoned twin, the contexts of the filled values being plain dicts or "
+        "lena.context.Context objects; histories contain >= 1 compute (any number of fills, also none), 'poison' occurs only "
         "when something was yielded since the last poison; it is non-trivial when at its end at least one "
         "context had been yielded and at least one value filled. states = distinct canonical "
         "(address-free) forms of the real element's attributes reached, transitions = judged final "
@@ -63,6 +69,12 @@ ASSUMPTIONS = [
     "Source branches (Split.run only; Zip and the common-type fill of Split have none): a generator of "
     "2 values made anew at every call, then the mutators as run elements; the Source alone is the Source "
     "as the only member of the Split, which calls it once whatever the flow",
+    "nested container branch: a bare lena.flow.Zip of 2 FillCompute sequences (own instances of the "
+    "branch's mutators, StoreFilled, a Tap each) given to the Split / Zip as it is; what leaves the branch "
+    "is what leaves its sequences, sequence by sequence",
+    "contexts that are lena.context.Context objects (legal: Context is a dict subclass and the element "
+    "Context() makes them) have ordinary dicts and lists as nested items; the values a Source branch "
+    "generates keep plain dict contexts",
     "'a branch alone' is, for Split, the same branch as the only member of a Split with the same "
     "bufsize, drive mode and consumer over a fresh equal flow (the block schedule itself is C03's); "
     "for Zip it is the same branch at the same position among the same terminals with the other "
@@ -94,17 +106,22 @@ def _dom(tier):
     """src2 / src3: mutators of the Source branches that 2- / 3-branch lists may contain;
     same2 / same3: flow lengths for which 2- / 3-branch lists are also run over a flow of EQUAL values;
     copy2 / copy3: (flow length, hostile consumer) for which they are also run as a deep copy next to
-    its template."""
+    its template; ctx2 / ctx3: (flow length, hostile consumer) for which they are also run over a
+    flow whose contexts are lena.context.Context objects; nest2 / nest3: mutators of the branches that are
+    a bare nested Zip; hist_ctx: history bound of Part B for filled values whose context is a Context."""
     if tier == "thorough":
         return dict(pre2=L.PRE_TOKENS, terms2=L.TERM_TOKENS, pairs_of_mutators=True, nmax2=3,
                     pre3=L.PRE_TOKENS, terms3=L.TERM_TOKENS, nmax3=3, bufs3=None, hist=7,
                     src2=L.SRC_PRE, src3=("none", "usr"), same2=(2, 3), same3=(2, 3),
                     copy2=tuple((n, h) for n in (1, 2, 3) for h in (False, True)),
-                    copy3=((2, False),))
+                    copy3=((2, False),), nest2=L.NEST_PRE, nest3=("none", "usr"),
+                    ctx2=tuple((n, h) for n in (1, 2, 3) for h in (False, True)),
+                    ctx3=((2, False), (2, True)), hist_ctx=6)
     return dict(pre2=L.PRE_TOKENS[:7] + ("usrsl",), terms2=L.TERM_TOKENS[:4], pairs_of_mutators=False, nmax2=3,
                 pre3=("none", "usr", "upd", "mkf", "cnt", "usrsl"), terms3=L.TERM_TOKENS[:4], nmax3=2,
                 bufs3=(1, 2, None), hist=5, src2=("none", "usr"), src3=("none",),
-                same2=(2, 3), same3=(), copy2=((1, False), (2, False), (2, True)), copy3=())
+                same2=(2, 3), same3=(), copy2=((1, False), (2, False), (2, True)), copy3=(),
+                nest2=("none", "usr", "var"), nest3=(), ctx2=((2, False),), ctx3=(), hist_ctx=4)
 
 
 def describe(tier):
@@ -121,24 +138,31 @@ def describe(tier):
             "plain and hostile consumer. Also over flows of equal values: 2-branch lists for flow lengths "
             "%s, 3-branch lists for %s; also as a deep copy next to its template: 2-branch lists for flow "
             "lengths %s, 3-branch lists for %s. Part B: accumulators %s x wrappers %s, all histories over "
-            "fill/compute/poison of length <= %d"
+            "fill/compute/poison of length <= %d. Further branch kind: a bare nested Zip of 2 sequences "
+            "with a mutator of %s (in 3-branch lists: %s). Further flows, with lena.context.Context "
+            "contexts: 2-branch lists for flow lengths %s, 3-branch lists for %s; Part B also with filled "
+            "contexts that are Context objects: histories of length <= %d"
             % (list(d["pre2"]), " or an ordered pair of two different mutators"
                if d["pairs_of_mutators"] else "", list(d["terms2"]), list(d["src2"]), d["nmax2"],
                list(d["pre3"]), list(d["terms3"]), list(d["src3"]), d["nmax3"],
                "{1, 2, n+1, 1000, None}" if d["bufs3"] is None else list(d["bufs3"]),
                list(d["same2"]), list(d["same3"]) or "none", copies(d["copy2"]), copies(d["copy3"]),
-               list(L.ACCS), list(L.WRAPS), d["hist"]))
+               list(L.ACCS), list(L.WRAPS), d["hist"],
+               list(d["nest2"]), list(d["nest3"]) or "none", copies(d["ctx2"]), copies(d["ctx3"]),
+               d["hist_ctx"]))
 
 
 def _kinds3(tier):
     d = _dom(tier)
-    return [[p, t] for p in d["pre3"] for t in d["terms3"]] + [[p, L.SRC_TOKEN] for p in d["src3"]]
+    return ([[p, t] for p in d["pre3"] for t in d["terms3"]] + [[p, L.SRC_TOKEN] for p in d["src3"]]
+            + [[p, L.NEST_TOKEN] for p in d["nest3"]])
 
 
 def _terms3(tier):
     """The terminals by which the second branch of a 3-branch list selects its shard."""
     d = _dom(tier)
-    return list(d["terms3"]) + ([L.SRC_TOKEN] if d["src3"] else [])
+    return (list(d["terms3"]) + ([L.SRC_TOKEN] if d["src3"] else [])
+            + ([L.NEST_TOKEN] if d["nest3"] else []))
 
 
 def _kinds2(tier):
@@ -151,6 +175,7 @@ def _kinds2(tier):
             for t in d["terms2"]:
                 out.append([a, b, t])
     out.extend([p, L.SRC_TOKEN] for p in d["src2"])
+    out.extend([p, L.NEST_TOKEN] for p in d["nest2"])
     return out
 
 
@@ -166,7 +191,8 @@ def shards(tier):
     out = []
     for tok in L.ACCS:
         for wrap in L.WRAPS:
-            out.append({"part": "B", "acc": tok, "wrap": wrap})
+            for ctx in L.CTXS:
+                out.append({"part": "B", "acc": tok, "wrap": wrap, "ctx": ctx})
     k2 = _kinds2(tier)
     k3 = _kinds3(tier)
     # 2-branch lists: one shard per first branch (all containers and modes)
@@ -319,8 +345,12 @@ def check_a(res, container, kinds, bufsize, n, mode, hostile, flow="distinct", o
         res.count("A_hostile_consumer")
     if any(k[-1] == L.SRC_TOKEN for k in kinds):
         res.count("A_with_a_source_branch")
-    if flow != "distinct":
+    if flow == "same":
         res.count("A_flow_of_equal_values")
+    if flow == "ctxobj":
+        res.count("A_flow_with_Context_objects")
+    if any(k[-1] == L.NEST_TOKEN for k in kinds):
+        res.count("A_with_a_nested_Zip_branch")
     if origin != "fresh":
         res.count("A_deep_copy_next_to_its_template")
     plain = {}
@@ -344,14 +374,18 @@ def check_a(res, container, kinds, bufsize, n, mode, hostile, flow="distinct", o
             cause["victim_type"] = L.TERM_TYPE[kinds[where][-1]]
         # which of the non-default dimensions are needed to see it?
         cause["needs_hostile_consumer"] = bool(hostile) and law not in law_without(hostile=False)
-        if flow != "distinct":
+        if flow == "same":
             cause["needs_equal_values"] = law not in law_without(flow="distinct")
+        if flow == "ctxobj":
+            cause["needs_context_objects"] = law not in law_without(flow="distinct")
         if origin != "fresh":
             # (laws about the template or the pair cannot show without the copy)
             cause["needs_deep_copy"] = law not in law_without(origin="fresh")
         res.violation(case, {"branch": where, "got": observed}, {"reference": expected}, cause,
-                      note="kinds are [mutators..., terminal] per branch; flow 'same' = all values equal, "
-                           "each made of its own objects; origin 'copy' = the container is a deep copy, "
+                      note="kinds are [mutators..., terminal] per branch (terminal 'zipn' = the branch is a "
+                           "bare Zip of 2 sequences mutators + StoreFilled); flow 'same' = all values equal, "
+                           "each made of its own objects; flow 'ctxobj' = the contexts of the flow are "
+                           "lena.context.Context objects; origin 'copy' = the container is a deep copy, "
                            "made before any value, of a template that is driven next to it over an equal "
                            "flow (laws 'template:...' speak of the template); see mc/ref/c04_lib.py")
     return case
@@ -364,6 +398,8 @@ def _variants(d, two, n, hostile):
         out.append(("same", "fresh"))
     if (n, hostile) in d["copy2" if two else "copy3"]:
         out.append(("distinct", "copy"))
+    if (n, hostile) in d["ctx2" if two else "ctx3"]:
+        out.append(("ctxobj", "fresh"))
     return out
 
 
@@ -440,7 +476,7 @@ def _call(f, *args):
         return ("foreign-exc", type(e).__name__)
 
 
-def exec_history(tok, wrap, hist):
+def exec_history(tok, wrap, hist, ctx="dict"):
     """Execute *hist* on a fresh machine and its un-poisoned twin; judge after the last event.
     -> dict(status, problems=[(law, observed, expected)], nontrivial, state, events, outcome)"""
     m = L.Machine(tok, wrap)
@@ -455,8 +491,8 @@ def exec_history(tok, wrap, hist):
     last = len(hist) - 1
     for idx, ev in enumerate(hist):
         if ev == "f":
-            v = L.make_value(tok, j)
-            tv = L.make_value(tok, j)
+            v = L.make_value(tok, j, ctx)
+            tv = L.make_value(tok, j, ctx)
             j += 1
             r = _call(m.fill, v)
             tr = _call(twin.fill, tv)
@@ -534,13 +570,13 @@ def exec_history(tok, wrap, hist):
     state = L.canon(m.el)
     return dict(status="judged", problems=problems, nontrivial=bool(yields) and bool(filled),
                 state=state, events=events,
-                outcome=(tok, wrap, len(filled), len(yields), tuple(p[0] for p in problems),
+                outcome=(tok, wrap, ctx, len(filled), len(yields), tuple(p[0] for p in problems),
                          digest(state)))
 
 
-def check_b(res, tok, wrap, hist, states):
-    case = {"part": "B", "acc": tok, "wrap": wrap, "history": hist}
-    r = exec_history(tok, wrap, hist)
+def check_b(res, tok, wrap, hist, states, ctx="dict"):
+    case = {"part": "B", "acc": tok, "wrap": wrap, "history": hist, "ctx": ctx}
+    r = exec_history(tok, wrap, hist, ctx)
     res.count("B_events_executed", r["events"])
     if r["status"] != "judged":
         res.count("B_" + r["status"])
@@ -548,6 +584,8 @@ def check_b(res, tok, wrap, hist, states):
         return case
     res.case(nontrivial=r["nontrivial"], outcome=r["outcome"])
     res.count("B_judged")
+    if ctx != "dict":
+        res.count("B_filled_contexts_are_Context_objects")
     res.transitions += 1
     res.traces += 1
     states.add(digest(r["state"]))
@@ -557,13 +595,18 @@ def check_b(res, tok, wrap, hist, states):
         law, observed, expected = r["problems"][0]
         via = "accumulator"
         if wrap != "bare":
-            rb = exec_history(tok, "bare", hist)
+            rb = exec_history(tok, "bare", hist, ctx)
             if not (rb["status"] == "judged" and any(p[0] == law for p in rb["problems"])):
                 via = wrap
         cause = {"part": "B", "law": law, "accumulator": L.ACC_CLASS.get(tok, tok), "via": via}
+        if ctx != "dict":
+            rd = exec_history(tok, wrap, hist, "dict")
+            cause["needs_context_objects"] = not (rd["status"] == "judged"
+                                                  and any(p[0] == law for p in rd["problems"]))
         res.violation(case, observed, expected, cause,
                       note="history: f = fill a fresh value, c = compute/request (all yields consumed), "
-                           "p = edit in place every context yielded so far; all laws broken: %s"
+                           "p = edit in place every context yielded so far; ctx = class of the contexts of the "
+                           "filled values (dict / lena.context.Context); all laws broken: %s"
                            % sorted(set(p[0] for p in r["problems"])))
     return case
 
@@ -576,10 +619,11 @@ def run_b(res, p, tier):
         # e.g. FillRequest(reset=True) around an accumulator without a reset method
         res.count("B_wrapper_not_applicable")
         return
-    hs = histories(_dom(tier)["hist"])
+    ctx = p.get("ctx", "dict")
+    hs = histories(_dom(tier)["hist" if ctx == "dict" else "hist_ctx"])
     case = None
     for h in hs:
-        case = check_b(res, p["acc"], p["wrap"], h, states)
+        case = check_b(res, p["acc"], p["wrap"], h, states, ctx)
         if len(h) == 4 and h.endswith("pc"):
             res.sample(case, 2)
     res.sample(case, 3)
@@ -600,7 +644,7 @@ def run_shard(p, tier):
 def replay(case):
     res = Result()
     if case.get("part") == "B":
-        check_b(res, case["acc"], case["wrap"], case["history"], set())
+        check_b(res, case["acc"], case["wrap"], case["history"], set(), case.get("ctx", "dict"))
     else:
         check_a(res, case["container"], [list(k) for k in case["kinds"]], case["bufsize"], case["n"],
                 case["mode"], case["hostile"], case.get("flow", "distinct"), case.get("origin", "fresh"))
@@ -611,10 +655,11 @@ LEVEL_TEXT = ("explicit-state exploration of the real accumulators: every histor
               "value, compute/request, edit in place everything yielded so far} up to length 5 (thorough: "
               "7) on 14 accumulator configurations (3 of them yield several values per compute) x 6 "
               "wrappers, with an id-graph invariant and an "
-              "un-poisoned twin; plus bounded exhaustive enumeration of all ordered lists of 2..3 "
+              "un-poisoned twin, for filled contexts that are plain dicts and (length 4, thorough: 6) "
+              "lena.context.Context objects; plus bounded exhaustive enumeration of all ordered lists of 2..3 "
               "mutating branches of every sequence type Split accepts (Sequence, FillCompute, FillRequest, "
-              "Source) x bufsize x flow length x drive mode x consumer for Split and Zip (also "
-              "over flows of equal values and for a deep copy driven next to its template), each branch "
+              "Source, and a bare nested Zip) x bufsize x flow length x drive mode x consumer for Split and Zip (also "
+              "over flows of equal values, over flows with lena.context.Context contexts and for a deep copy driven next to its template), each branch "
               "compared with the same branch alone")
 LEVEL_NOTE = ("holds for the enumerated alphabet and bounds only; 'alone' keeps the container's block "
               "schedule (C03 owns the schedule); only contexts are judged for accumulators; "
